@@ -112,8 +112,9 @@ def compare_nodelevel(r1, r2, perm, N):
 
 
 def sim_part(ctx):
-    for sim in ("fast_nonMarkov_SIR", "fast_nonMarkov_SIS", "discrete_SIR"):
-        for _ in range(ctx.scale(60, 400)):
+    for sim_ in ("fast_nonMarkov_SIR", "fast_nonMarkov_SIS", "discrete_SIR", "fast_nonMarkov_SIR:ties"):
+        sim, ties = sim_.split(":")[0], sim_.endswith(":ties")
+        for _ in range(ctx.scale(300, 2000) if ties else ctx.scale(60, 400)):
             c = allsims.gen_case(ctx.rng, sim)
             if c["init"]["kind"] not in ("list", "single"):
                 c["init"] = dict(kind="list", nodes=[0])
@@ -125,6 +126,17 @@ def sim_part(ctx):
                                       for _ in per]] for u, v, per in c["delay"]]
                 c["tmax"] = str(F(c["tmin"]) + ctx.rng.choice([4, 8, 12]))
                 ctx.count("sis:tie-heavy")
+            if sim == "fast_nonMarkov_SIR" and (ties or ctx.rng.random() < 0.5):
+                # tie-heavy deterministic rules: integer durations and delays and several nodes infected at the same
+                # instant, so that a contact coincides with its source's recovery and competing sources are processed
+                # in adjacency order; the outcome must still not depend on names / insertion order
+                c["dur"] = [str(ctx.rng.randint(1, 3)) for _ in c["dur"]]
+                c["delay"] = [[u, v, str(ctx.rng.randint(1, 3))] for u, v, _ in c["delay"]]
+                if c["n"] >= 3:
+                    c["init"] = dict(kind="list", nodes=sorted(ctx.rng.sample(range(c["n"]), ctx.rng.randint(2, min(3, c["n"] - 1)))))
+                    c["recs"] = [r_ for r_ in c.get("recs", []) if r_ not in c["init"]["nodes"]]
+                c["tmax"] = "inf" if ctx.rng.random() < 0.5 else str(F(c["tmin"]) + ctx.rng.choice([3, 5, 8]))
+                ctx.count("sir:tie-heavy")
             base, G, idx = allsims.run_impl(c, rng=ctx.rng, full=True)
             if not base["ok"]:
                 continue
@@ -138,6 +150,10 @@ def sim_part(ctx):
             perm = list(range(len(edges))); ctx.rng.shuffle(perm)
             c2["order"] = order
             c2["edges"] = [edges[i] for i in perm]
+            if c["init"]["kind"] == "list":
+                # the initially infected nodes are a set of nodes: the order in which the caller lists them is not structure
+                nodes_ = list(c["init"]["nodes"]); ctx.rng.shuffle(nodes_)
+                c2["init"] = dict(c["init"], nodes=nodes_)
             rep = dict(entry=sim, relabel=kind, case=strip(c))
             ctx.count("sim:%s" % kind)
             out2, G2, idx2 = run_relabelled(c2, ctx)
